@@ -110,6 +110,12 @@ func (w *World) structuralChecks() {
 				if w.opt.FreeCheck && n.NumNodes == 0 {
 					w.failf("live-node-zeroed", "collection %q: reachable node at path %q has numNodes==0 (recycled)", name, n.Path)
 				}
+				if w.opt.FreeCheck && n.Marked && !h.snap && w.inVisit == 0 {
+					// Only nodes that a newer version has replaced carry a reclaim mark;
+					// a marked node inside the *current* version of the writable store
+					// will be freed, while still reachable, when the version changes.
+					w.failf("live-node-marked", "collection %q: node at path %q belongs to the current version but carries a reclaim mark (left behind by an earlier call); the next version change will recycle it while it is reachable", name, n.Path)
+				}
 				if w.rc != nil && n.Item != nil && w.rc.cnt[n.Item] <= 0 {
 					w.failf("refcount-not-positive", "collection %q: cached item %s reachable from an open handle has count %d", name, qb(n.Item.Key), w.rc.cnt[n.Item])
 				}
